@@ -12,7 +12,7 @@ SMT = "symbolic execution of the MIR + z3 (QF_FP bit-precise / nonlinear real ar
 BMC = "bounded model checking (Kani/CBMC) of the compiled crate over symbolic f64/u64 inputs"
 
 chk("C01", "proof",
-    "Every evaluate impl (Poly0..8, PolyN lengths 0..12, Log<Poly0..8>) is executed symbolically from the MIR; z3 proves for ALL real inputs that the operation tree equals sum c_i x^i (exact arithmetic), that the rounded result is linear in the coefficients and every monomial lane carries a factor within 4(n+2)*2^-53 of 1 (tightness twins sat), and bit-precisely that Log<T>::evaluate(v) is T::evaluate(ln v). A Kani anchor checks exactness on exactly representable integers through the compiled code incl. fma.",
+    "Every evaluate impl (Poly0..8, PolyN lengths 0..12 (identity also at 16,17,33,65; thorough to 257), Log<Poly0..8>) is executed symbolically from the MIR; z3 proves for ALL real inputs that the operation tree equals sum c_i x^i (exact arithmetic), that the rounded result is linear in the coefficients and every monomial lane carries a factor within 4(n+2)*2^-53 of 1 (tightness twins sat), and bit-precisely that Log<T>::evaluate(v) is T::evaluate(ln v). A Kani anchor checks exactness on exactly representable integers through the compiled code incl. fma.",
     "Standard rounding model (no overflow/underflow: the property's own proviso); ln uninterpreted; PolyN length <= 12; Kani anchor on |c|<=4,|x|<=3. Trusted: rustc MIR dump, own interpreter (validated every run against the native crate), z3.",
     SMT + "; Kani anchor", BOTH, "DESIGN.md §4 C01")
 chk("C02", "model_checking",
